@@ -206,6 +206,47 @@ fn run(ctx: &Ctx) {
             run_batch(ctx, &check, profile, &cases, timeout, &judge, &mut l);
         }
     }
+    // 4. general composites near the size limit on the sieve selectors: a complete run is out of every budget,
+    //    but the start-up (parameter derivation, factor base, first polynomials) must not abort.  A run that is
+    //    still going at the short watchdog is not judged (termination at these sizes cannot be observed).
+    for profile in ["opt", "chk"] {
+        let check = format!("factor@{}", profile);
+        let mut cases = vec![];
+        let sizes: &[u32] = if quick { &[280, 330, 400, 456, 464, 480, 512] } else { &[260, 280, 300, 330, 360, 400, 430, 448, 456, 463, 464, 470, 480, 496, 500, 506, 512] };
+        for &bits in sizes {
+            let a = bits / 2;
+            let mut c = mk_case("limit-hard-semiprime", vec![certified_prime(a, 0), certified_prime(bits - a, 1)], "siqs", PrefSpec::default());
+            for alg in ["qs", "mpqs", "siqs"] {
+                c.algo = alg.to_string();
+                cases.push(c.clone());
+            }
+        }
+        let jobs: Vec<Value> = cases.iter().map(|c| c.job()).collect();
+        let res = crate::worker::run_jobs(profile, &jobs, 24, &|_| if quick { 10.0 } else { 40.0 }).unwrap_or_default();
+        for (c, r) in cases.iter().zip(res.iter()) {
+            let o = Outcome::from_job(r);
+            l.case();
+            l.label(&format!("limit-hard:{}:{}", profile, o.tag()));
+            l.nontrivial(crate::engine::hash64(&(profile, c.key())));
+            l.sample("limit-hard-semiprime", || serde_json::to_value(c).unwrap());
+            let verdict = match &o {
+                Outcome::Panic { msg, loc, msg_class } => {
+                    // signature by file and message class (line numbers move with unrelated edits)
+                    let file = loc.split(':').next().unwrap_or(loc);
+                    Err(Fail::new(
+                        format!("factor[{}]|panic@{}|{}", c.algo, file, msg_class),
+                        format!("factor({}-bit semiprime {}, {}) panicked at {} [{}]: {}", c.n.bits(), c.n, c.algo, loc, profile, msg),
+                    )
+                    .with_detail(format!("bits={}", c.n.bits())))
+                }
+                Outcome::Died(s) => Err(Fail::new(format!("factor[{}]|process-died", c.algo), format!("factor({}, {}) killed the process [{}]: {}", c.n, c.algo, profile, s))),
+                _ => Ok(()),
+            };
+            if let Err(f) = verdict {
+                ctx.violation(&check, &f, serde_json::to_value(c).unwrap());
+            }
+        }
+    }
     ctx.merge(l);
     ctx.essential("outcome:opt:ok", 1000);
     ctx.essential("outcome:chk:ok", 1000);
